@@ -62,7 +62,7 @@ def run_stv_case(case):
 
 def model_post(exp, mo):
     """Normalise the model's call log the same way as the recorder's."""
-    if isinstance(mo, list) and len(mo) == 3 and isinstance(mo[1], list):
+    if exp.get("what", "").startswith("election_states") and isinstance(mo, list) and len(mo) == 3 and isinstance(mo[1], list):
         return [mo[0], rules.norm_calls(mo[1]), mo[2]]
     return mo
 
